@@ -115,6 +115,16 @@ func (c *SimCtx) Err() error {
 	return nil
 }
 
+// CancelNow cancels the context from outside any evaluation (the host's
+// `defer cancel()`): Done is closed and every later Err reports the cause.
+func (c *SimCtx) CancelNow() {
+	c.CancelAt = 1
+	if !c.closed {
+		c.closed = true
+		close(c.done)
+	}
+}
+
 // Cancelled reports whether the context has already reported an error.
 func (c *SimCtx) Cancelled() bool { return c.closed }
 
